@@ -185,10 +185,17 @@ def run_property(pid: str, tier: str, seed: int, write_lock=False, verbose=False
                 known_hits.append(kf)
                 continue
             path = os.path.join("replays", f"{pid}-{safe(g.oid)}.json")
+            rep = {"status": "reproduced", "detail": "ground obligation: the witness row itself is the failing input"}
+            gr = P.get("ground_replay")
+            if gr is not None and g.backend != "ground":
+                try:
+                    rep = gr(g) or rep
+                except Exception as e:
+                    rep = {"status": "no-replay", "detail": f"replay harness error: {e!r}"}
             with open(os.path.join(VERIF, path), "w") as f:
                 json.dump({"property": pid, "obligation": g.oid, "detail": g.detail, "witness": g.witness,
-                           "backend": g.backend, "repo": repo_root()}, f, indent=1, default=str)
-            violations.append((g.oid, path, ""))
+                           "backend": g.backend, "replay": rep, "repo": repo_root()}, f, indent=1, default=str)
+            violations.append((g.oid, path, "" if rep.get("status") == "reproduced" else " no-failing-input-found"))
 
     # ---- evidence ------------------------------------------------------------------------------------
     known_obls = sorted({k["obligation"] for k in known_hits})
